@@ -540,7 +540,9 @@ by condition.assertConditionExpressionValue.
 func (r condition) defaultAssertionExpressionHandler(x any) (X any) {
 	// no push policy, so we'll see if the basic
 	// guidelines were satisfied, at least ...
-	if _, ok := stackTypeAliasConverter(x); ok {
+	// a native Stack is a Stack whether or not it has been initialised
+	_, native := x.(Stack)
+	if _, ok := stackTypeAliasConverter(x); ok || native {
 		if r.positive(nnest) {
 			return
 		}
